@@ -6,6 +6,9 @@
 //!   a <hex|-|none>          DBUS_SESSION_BUS_ADDRESS := these bytes (none: unset); get_session_bus_path()
 //!                           -> "<hex> P:<hex path>" | "A:<hex abstract name>" | "E" | "PANIC" | "SKIP" (NUL byte)
 //!   u <hex|->               std::str::from_utf8(bytes).is_ok() -> "1" | "0"
+//!   s <n> <k>               n child processes with the DEFAULT SIGPIPE disposition (as a non-Rust or sig_dfl program has it) call
+//!                           connect_to_bus against a server that reads k bytes and closes (0: at accept)
+//!                           -> "sig killed=<a> err=<b> ok=<c> other=<d>"
 //!   y                       get_system_bus_path() -> "P:<hex>" | "N:<hex of the path reported missing>" | "E" | "PANIC"
 //!   h <0|1> <p|a> <script> [m]
 //!                           connect_to_bus(addr, with_fd) against a scripted server; p = path socket in the
@@ -23,9 +26,7 @@
 //!                           signal; the client, if connected, must receive exactly that message.
 //!                           -> "<ok|authfailed|fdfailed|err|panic|hang> S:<hex of all bytes the server received> M:<ok|bad:..|-> W:<n>"
 //! Nothing here sleeps; the only timers are hang detectors (deadline(), 4 s unless C17_DEADLINE_MS is set).
-//!
-//! c17 --sigpipe-demo N   demonstration, not part of the check: N child processes with the DEFAULT SIGPIPE disposition
-//!                        call connect_to_bus against a server that closes at accept; prints how many were killed by SIGPIPE.
+
 
 use rbverif::{hex, unhex};
 use rustbus::connection::ll_conn::DuplexConn;
@@ -354,40 +355,49 @@ fn sigpipe_child(name: &str, dfl: bool) -> ! {
     std::process::exit(if r.is_ok() { 0 } else { 3 })
 }
 
-fn sigpipe_demo(n: usize) {
+/// N child processes with the DEFAULT SIGPIPE disposition call connect_to_bus against a server that reads k bytes and
+/// closes (k = 0: closes at accept). The server thread runs with real-time priority on the child's CPU so that its
+/// accept+close gets in between the child's connect() and its first sendmsg() as often as possible.
+/// -> "sig killed=<by a signal> err=<returned an error> ok=<returned Ok> other=<anything else>"
+fn sigpipe_line(n: usize, k: usize) -> String {
     use std::os::linux::net::SocketAddrExt;
     use std::os::unix::process::ExitStatusExt;
     let exe = std::env::current_exe().unwrap();
-    for dfl in [true, false] {
-        let (mut killed, mut err, mut other) = (0, 0, 0);
-        for i in 0..n {
-            let name = format!("rbverif-c17-sigpipe-{}-{}", std::process::id(), i);
-            let sa = std::os::unix::net::SocketAddr::from_abstract_name(name.as_bytes()).unwrap();
-            let listener = UnixListener::bind_addr(&sa).unwrap();
-            let srv = std::thread::spawn(move || {
-                pin_to_cpu0();
-                if let Ok((s, _)) = listener.accept() {
-                    drop(s); // the server closes at accept
-                }
-            });
-            let st = std::process::Command::new(&exe)
-                .args(["--sigpipe-child", &name, if dfl { "dfl" } else { "ign" }])
-                .status()
-                .unwrap();
-            let _ = srv.join();
-            if st.signal() == Some(nix::libc::SIGPIPE) {
-                killed += 1
-            } else if st.code() == Some(3) {
-                err += 1
-            } else {
-                other += 1
+    let (mut killed, mut err, mut ok, mut other) = (0, 0, 0, 0);
+    for i in 0..n {
+        let name = format!("rbverif-c17-sigpipe-{}-{}-{}", std::process::id(), k, i);
+        let sa = std::os::unix::net::SocketAddr::from_abstract_name(name.as_bytes()).unwrap();
+        let listener = UnixListener::bind_addr(&sa).unwrap();
+        let srv = std::thread::spawn(move || {
+            pin_to_cpu0();
+            unsafe {
+                let p = nix::libc::sched_param { sched_priority: 1 };
+                nix::libc::sched_setscheduler(0, nix::libc::SCHED_FIFO, &p); // best effort (needs CAP_SYS_NICE)
             }
+            if let Ok((mut s, _)) = listener.accept() {
+                let _ = s.set_read_timeout(Some(deadline()));
+                let mut b = [0u8; 1];
+                for _ in 0..k {
+                    if !matches!(s.read(&mut b), Ok(1)) {
+                        break;
+                    }
+                }
+                drop(s);
+            }
+        });
+        let st = std::process::Command::new(&exe).args(["--sigpipe-child", &name, "dfl"]).status().unwrap();
+        let _ = srv.join();
+        if st.signal().is_some() {
+            killed += 1
+        } else if st.code() == Some(3) {
+            err += 1
+        } else if st.code() == Some(0) {
+            ok += 1
+        } else {
+            other += 1
         }
-        println!(
-            "SIGPIPE {}: {} children, {} killed by SIGPIPE, {} returned an error, {} other",
-            if dfl { "default disposition" } else { "ignored" }, n, killed, err, other
-        );
     }
+    format!("sig killed={} err={} ok={} other={}", killed, err, ok, other)
 }
 
 fn main() {
@@ -396,10 +406,7 @@ fn main() {
     if args.len() >= 4 && args[1] == "--sigpipe-child" {
         sigpipe_child(&args[2], args[3] == "dfl");
     }
-    if args.len() >= 3 && args[1] == "--sigpipe-demo" {
-        sigpipe_demo(args[2].parse().unwrap());
-        return;
-    }
+
     let dir = rbverif::conn::scratch_dir();
     if args.len() >= 3 && args[1] == "--uid" {
         let uid: u32 = args[2].parse().unwrap();
@@ -428,6 +435,7 @@ fn main() {
             ["u", h] => {
                 if std::str::from_utf8(&unhex(h)).is_ok() { "1".to_string() } else { "0".to_string() }
             }
+            ["s", n, k] => sigpipe_line(n.parse().unwrap(), k.parse().unwrap()),
             ["y"] => match std::panic::catch_unwind(rustbus::connection::get_system_bus_path) {
                 Err(_) => "PANIC".to_string(),
                 Ok(Err(rustbus::connection::Error::PathDoesNotExist(p))) => format!("N:{}", hex(p.as_bytes())),
